@@ -584,6 +584,54 @@ def judge_orph(case, im, mo):
 
 SOR = common.Stream("orphanage", impl_orph, line_orph, judge_orph, chunk=16)
 
+def late_edit_programs():
+    """Designs made ill-formed by an edit *after* the library has looked at something once (a slice that has resolved its index, a
+    connection already made): ill-formed is ill-formed, whenever it became so. Each returns a module that must not export."""
+    def leaf(w, name="LeafW"):
+        m = h.Module(name=f"{name}{w}")
+        m.p = h.Port(width=w)
+        return m
+
+    def narrowed_to_slice_width():
+        t = h.Module(name="LateA"); t.s = h.Signal(width=8)
+        sl = t.s[4:8]; t.i = leaf(4)(p=sl); _ = sl.width
+        t.s.width = 4                        # s[4:8] of a four-bit signal; the slice is as wide as the whole of what is left
+        return t
+
+    def narrowed_to_one_bit():
+        t = h.Module(name="LateB"); t.s = h.Signal(width=8)
+        sl = t.s[5]; t.i = leaf(1)(p=sl); _ = sl.width
+        t.s.width = 1
+        return t
+
+    def narrowed_inside_concat():
+        t = h.Module(name="LateC"); t.s = h.Signal(width=8); t.u = h.Signal(width=2)
+        sl = t.s[4:8]; _ = sl.width
+        t.i = leaf(6)(p=h.Concat(t.u, sl))
+        t.s.width = 4
+        return t
+
+    def port_widened_after_connection():
+        L = leaf(1, "LateLeaf")
+        t = h.Module(name="LateD"); t.s = h.Signal(width=1); t.i = L(p=t.s)
+        L.p.width = 3
+        return t
+
+    return [("late:narrowed-to-slice-width", narrowed_to_slice_width), ("late:narrowed-to-one-bit", narrowed_to_one_bit),
+            ("late:narrowed-inside-concat", narrowed_inside_concat), ("late:port-widened-after-connection", port_widened_after_connection)]
+
+
+def impl_late(label):
+    mk = dict(late_edit_programs())[label]
+    out = {}
+    for how, f in (("to_proto", lambda m: h.to_proto(m)), ("netlist", lambda m: h.netlist(m, io.StringIO(), fmt="spice"))):
+        try:
+            f(mk()); out[how] = "returned"
+        except Exception as ex:  # noqa
+            out[how] = "raised " + type(ex).__name__
+    return out
+
+
 def run(ctx):
     rep, rng = ctx.rep, ctx.rng
     rep.extra["rule"] = (
@@ -631,6 +679,13 @@ def run(ctx):
             o = ctx.drv.run([designs.sem_line(c, None)])[0]
             rep.fail("pred", {"stream": "mutants", "case": {"class": "generated", "site": "-", "design": c["design"]}},
                      {"why": f"ill-formed generated design ({o['src']['error']}) accepted by {returned}", "impl": im})
+    # designs that became ill-formed by a late edit
+    labels = [l for l, _ in late_edit_programs()]
+    for label, im in zip(labels, common.pmap_fresh(impl_late, labels)):
+        rep.count("late_edits", label)
+        returned = [k for k, v in im.items() if v == "returned"]
+        if returned:
+            rep.fail("pred", {"stream": "late_edits", "label": label}, {"why": f"a design made ill-formed by a late edit ({label}) is accepted by {returned}", "impl": im})
     rep.extra["by_class"] = by_class
     SCT.run(ctx, [gen_conntypes(rng) for _ in range(300 if ctx.quick else 6000)])
     SOR.run(ctx, [gen_orph(rng) for _ in range(300 if ctx.quick else 6000)])
@@ -641,6 +696,13 @@ def run(ctx):
 
 
 def replay(ctx, rp):
+    if rp["case"].get("stream") == "late_edits":
+        im = common.pmap_fresh(impl_late, [rp["case"]["label"]])[0]
+        print(json.dumps(im))
+        if any(v == "returned" for v in im.values()):
+            print(f"VIOLATION property=C02 replay={rp.get('_path')}")
+            return 1
+        return 0
     m = rp["case"]["case"]
     o = ctx.drv.run([designs.sem_line(m, None)])[0]
     im = impl(m)
